@@ -50,6 +50,11 @@ fn main() {
             let mut rng = gen::rng(args.seed, args.shard, 18);
             let n = args.budget(1_600_000, 32_000_000) / args.nshards.max(1);
             for _ in 0..n { c18::random_case(&mut rng, &mut rep); }
+            // large capacities (power-of-two boundaries of the float fill level, the engine's own 10,000,000)
+            let large: &[(usize, usize)] = if args.thorough { &[(1 << 24, 5), ((1 << 24) + 1, 3), (10_000_000, 7), (1 << 25, 2), (100_000, 100_000), ((1 << 23) + 1, 9)] } else { &[(1 << 24, 5), (10_000_000, 7), (65_536, 65_536)] };
+            for (i, (cap, extra)) in large.iter().enumerate() {
+                if i as u64 % args.nshards.max(1) == args.shard { c18::large_capacity_case(*cap, *extra, &mut rep); }
+            }
         }
         other => {
             eprintln!("unknown monitor {:?}", other);
